@@ -798,14 +798,21 @@ fn prior_loader(fmt: Fmt) -> Fmt {
     }
 }
 
+/// Prior content kinds: 0 nothing; 1 through the API; 2 through another loader; and three states in which the
+/// DEFAULT GRAPH IS EMPTY BUT THE DICTIONARY IS NOT: 3 content in named graphs only (API), 4 content added and deleted
+/// again (API), 5 terms encoded but never stored.
+fn pkind(c: &Case) -> u8 {
+    c.prior_kind % 6
+}
+
 fn build_prior(c: &Case, e: &Eff) -> Vec<Group> {
-    if c.prior_kind % 3 == 0 {
+    if pkind(c) == 0 {
         return vec![];
     }
     let g = Gen { c, e };
     let mut r = Rng::new(c.seed, 2);
     let mut v = vec![];
-    let star = e.quoted && c.prior_kind % 3 == 2;
+    let star = e.quoted && pkind(c) == 2;
     for _ in 0..c.prior_n.max(1) {
         let ent = |r: &mut Rng| -> Term {
             if r.chance(1, 2) {
@@ -815,7 +822,7 @@ fn build_prior(c: &Case, e: &Eff) -> Vec<Group> {
                 Term::Iri((i % 3) as u8, format!("x{i}"))
             }
         };
-        let named = e.graphs && r.chance(1, 3);
+        let named = pkind(c) == 3 || (pkind(c) < 3 && e.graphs && r.chance(1, 3));
         let s = if star && !named && r.chance(1, 8) { g.quoted(&mut r) } else { ent(&mut r) };
         let i = r.below(c.npred.max(1) as u64 + 1);
         let p = Term::Iri((i % 3) as u8, format!("p{i}"));
@@ -833,7 +840,7 @@ fn make_db(c: &Case, prior: &[Group]) -> Result<(SparqlDatabase, Vec<LQ>), (Stri
         return Ok((db, vec![]));
     }
     let hash = c.hash_ns;
-    let kind = c.prior_kind % 3;
+    let kind = pkind(c);
     let via = prior_loader(c.fmt);
     let (named, dflt): (Vec<Group>, Vec<Group>) = prior.iter().cloned().partition(|g| g.g.is_some());
     let r = catch(|| {
@@ -841,10 +848,26 @@ fn make_db(c: &Case, prior: &[Group]) -> Result<(SparqlDatabase, Vec<LQ>), (Stri
             let (p, os) = &g.po[0];
             db.add_quad_parts(&g.s.lex(hash, false), &p.lex(hash, false), &os[0].lex(hash, false), &g.g.as_ref().unwrap().lex(hash, false));
         }
-        if kind == 1 {
+        if kind == 1 || kind == 4 {
             for g in &dflt {
                 let (p, os) = &g.po[0];
                 db.add_triple_parts(&g.s.lex(hash, false), &p.lex(hash, false), &os[0].lex(hash, false));
+            }
+        }
+        if kind == 4 {
+            // ... and everything is deleted again: the store is empty, the dictionary keeps the terms
+            for g in &dflt {
+                let (p, os) = &g.po[0];
+                db.delete_triple_parts(&g.s.lex(hash, false), &p.lex(hash, false), &os[0].lex(hash, false));
+            }
+        }
+        if kind == 5 {
+            let mut d = db.dictionary.write().unwrap();
+            for g in &dflt {
+                let (p, os) = &g.po[0];
+                d.encode(&g.s.lex(hash, false));
+                d.encode(&p.lex(hash, false));
+                d.encode(&os[0].lex(hash, false));
             }
         }
     });
@@ -864,9 +887,13 @@ fn make_db(c: &Case, prior: &[Group]) -> Result<(SparqlDatabase, Vec<LQ>), (Stri
         }
     }
     let before = snapshot(&db);
-    let model = lex_set(&flatten(&prior.iter().cloned().map(Item::Stmt).collect::<Vec<_>>()), hash, false, false);
+    let stored: Vec<Group> = match kind {
+        4 | 5 => vec![],
+        _ => prior.to_vec(),
+    };
+    let model = lex_set(&flatten(&stored.iter().cloned().map(Item::Stmt).collect::<Vec<_>>()), hash, false, false);
     if let Some(d) = diff(&model, &before) {
-        let path = if kind == 1 { "api" } else { via.name() };
+        let path = if kind == 2 { via.name() } else { "api" };
         return Err((format!("c13.prior.{path}"), format!("prior content ({} statements through {path}) is not what was written: {d}", prior.len())));
     }
     Ok((db, before))
@@ -963,7 +990,7 @@ fn check_case(c: &Case) -> Outcome {
     let prior = build_prior(c, &e);
     if std::env::var_os("C13_DUMP").is_some() {
         // goes to the log file: the documents of a (replayed) case, for reports
-        eprintln!("---- C13_DUMP case {c:?}\n---- prior ({} statements, kind {}):", prior.len(), c.prior_kind % 3);
+        eprintln!("---- C13_DUMP case {c:?}\n---- prior ({} statements, kind {}):", prior.len(), pkind(c));
         for g in &prior {
             eprintln!("{} {} {} {}", nt_term(&g.s, hash), nt_term(&g.po[0].0, hash), nt_term(&g.po[0].1[0], hash), g.g.as_ref().map(|g| nt_term(g, hash)).unwrap_or_default());
         }
@@ -992,7 +1019,7 @@ fn check_case(c: &Case) -> Outcome {
         ">2000"
     };
     o.class(intern(format!("{}/size{}", fmt.name(), bucket)));
-    o.class(intern(format!("{}/prior:{}", fmt.name(), ["empty", "api", "loader"][(c.prior_kind % 3) as usize])));
+    o.class(intern(format!("{}/prior:{}", fmt.name(), ["empty", "api", "loader", "named-graphs-only", "added-then-deleted", "dictionary-only"][pkind(c) as usize])));
     o.class(intern(format!("{}/threads:{}", fmt.name(), e.threads)));
     o.class_if(fmt.prefixes() && e.prefix == 1 && units > CHUNK, "prefix-top-only-multi-chunk");
     o.class_if(fmt.prefixes() && e.prefix >= 2 && items.iter().skip(3).any(|i| matches!(i, Item::Prefix(..))), "prefix-redeclared-mid-document");
@@ -1214,7 +1241,7 @@ impl Part for Random {
     fn strategy(&self, tier: Tier) -> BoxedStrategy<Case> {
         let shape = (prop_oneof![2u16..12, 30u16..400, 4000u16..6000], 1u8..6, prop_oneof![Just(0u8), 1u8..7], any::<bool>(), any::<bool>(), prop::bool::weighted(0.25), prop::bool::weighted(0.3));
         let layout = (0u8..4, any::<bool>(), 0u8..4, prop::bool::weighted(0.15), any::<bool>());
-        let env = (0u8..3, prop_oneof![1u16..6, 6u16..300], 0u8..3, 1u8..5);
+        let env = (0u8..6, prop_oneof![1u16..6, 6u16..300], 0u8..3, 1u8..5);
         (fmt_strategy(), fmt_strategy(), any::<u64>(), shape, layout, env)
             .prop_flat_map(move |(fmt, other, seed, shape, layout, env)| (Just((fmt, other, seed, shape, layout, env)), target_strategy(fmt, tier)))
             .prop_map(|((fmt, other, seed, shape, layout, env), target)| Case {
@@ -1288,7 +1315,8 @@ fn boundary_case(fmt: Fmt, target: u32, prior_kind: u8, threads: u8, h: u64) -> 
         noise: r.below(4) as u8,
         crlf: r.chance(1, 8),
         nt_two_step: r.chance(1, 2),
-        prior_kind,
+        // the "nothing in the default graph" cells rotate through the four states with an empty default graph
+        prior_kind: if prior_kind == 0 { [0u8, 3, 4, 5][r.below(4) as usize] } else { prior_kind },
         prior_n: [1u16, 5, 40, 250][r.below(4) as usize],
         threads,
         pieces: 1 + r.below(3) as u8,
